@@ -200,9 +200,50 @@ Section Stream.
     end.
 End Stream.
 
-(* mmap_mode validation of _validate_fileobject_and_memmap: kept only for an uncompressed raw file *)
-Definition validated_mmap (requested : bool) (k : kind) (is_bytesio is_raw_file : bool) : bool :=
-  requested && negb is_bytesio && (match k with KPlain => true | _ => false end) && is_raw_file.
+(* ------------------------------------------------------------------ load(): the dispatch *)
+
+(* what load() is given: a path (str / pathlib.Path: load opens it itself, a raw buffered file), or an object
+   with .read -- a raw file (open(p, "rb"): io.BufferedReader over io.FileIO), an io.BytesIO, anything else *)
+Inductive src := SPath | SRawFile | SBytesIO | SOtherObj.
+(* the ensure_native_byte_order argument *)
+Inductive native_arg := NAuto | NTrue | NFalse.
+(* the warning _validate_fileobject_and_memmap emits when it drops mmap_mode *)
+Inductive warn := WNone | WBytesIO | WCompressed | WNotRaw.
+(* what the unpickler is set up with *)
+Record load_plan := { lp_mmap : bool;      (* NumpyUnpickler.mmap_mode is not None *)
+                      lp_native : bool;    (* NumpyUnpickler.ensure_native_byte_order *)
+                      lp_warn : warn }.
+
+(* _is_raw_file(fileobj) on the object _validate_fileobject_and_memmap holds for an UNcompressed file *)
+Definition is_raw (s : src) : bool := match s with SPath | SRawFile => true | _ => false end.
+
+(* mmap_mode validation of _validate_fileobject_and_memmap, in the order of its if / elif chain; for a
+   compressed file `fileobj` has already been replaced by the BufferedReader over the decompressor, so the
+   BytesIO test only fires for an uncompressed BytesIO *)
+Definition validate_mmap (s : src) (mmap : bool) (k : kind) : bool * warn :=
+  if mmap then
+    match s, k with
+    | SBytesIO, KPlain => (false, WBytesIO)
+    | _, KPlain => if is_raw s then (true, WNone) else (false, WNotRaw)
+    | _, _ => (false, WCompressed)
+    end
+  else (false, WNone).
+
+(* load(filename, mmap_mode, ensure_native_byte_order) up to the call of _unpickle.  `mmap`: mmap_mode is not
+   None; `k`: what _detect_compressor said.  In the file-object branch the validated mmap_mode is dropped
+   (`as (fobj, _)`): a file object is never memory-mapped. *)
+Definition load_decide (s : src) (mmap : bool) (na : native_arg) (k : kind) : result load_plan :=
+  (* if ensure_native_byte_order == "auto": ensure_native_byte_order = mmap_mode is None *)
+  let native := match na with NAuto => negb mmap | NTrue => true | NFalse => false end in
+  (* if ensure_native_byte_order and mmap_mode is not None: raise ValueError *)
+  if native && mmap then Raise ValueError
+  else match k with
+       | KCompat => Raise (OtherError 1)          (* numpy_pickle_compat: not modelled *)
+       | _ =>
+         if (match k with KCodec c => negb (codec_available c) | _ => false end) then Raise ValueError
+         else let '(valid, w) := validate_mmap s mmap k in
+              Ok {| lp_mmap := (match s with SPath => valid | _ => false end); lp_native := native; lp_warn := w |}
+       end.
 
 (* ------------------------------------------------------------------ how a pickle starts *)
 
